@@ -24,7 +24,7 @@ const (
 )
 
 // Scenarios lists all scenarios in canonical order.
-var Scenarios = []string{ScFresh, ScCopyBefore, ScCopyDuring, ScScript, ScScript3, ScProgram, ScReuse, ScCopyOnly}
+var Scenarios = []string{ScFresh, ScCopyBefore, ScCopyDuring, ScScript, ScScript3, ScProgram, ScReuse, ScCopyOnly, ScCopyInside}
 
 // Spec identifies one case: a scenario and, per thread, the list of bodies the
 // thread executes in sequence on its runtime.
@@ -49,13 +49,17 @@ func (sp Spec) Name() string {
 // ParseSpec is the inverse of Name.
 func ParseSpec(s string) (Spec, error) {
 	i := strings.IndexByte(s, '/')
+	if strings.HasPrefix(s, ScCopyInside+"/") {
+		// copy-inside/<context>/<threads>: the context is part of the scenario
+		i = strings.LastIndexByte(s, '/')
+	}
 	if i < 0 {
 		return Spec{}, fmt.Errorf("bad case name %q", s)
 	}
 	sp := Spec{Scenario: s[:i]}
-	ok := false
+	ok := insideContext(sp.Scenario) != nil
 	for _, sc := range Scenarios {
-		if sc == sp.Scenario {
+		if sc == sp.Scenario && sc != ScCopyInside {
 			ok = true
 		}
 	}
@@ -136,6 +140,9 @@ type Options struct {
 	// halt_on_error the known race would otherwise end the pass at once and
 	// hide every other race.
 	NoBridgeFunc, NoBridgeSlice bool
+	// OnSnap (copy-inside only) is called inside the host callback right after
+	// the copies were taken, while the template is still executing its script.
+	OnSnap func(c *Case)
 	// BusyTemplate (free-running mode only): in copy-before the template itself
 	// runs a small loop on a goroutine of its own while its copies run, and the
 	// copies make the frames observation in their threads as well.
@@ -430,7 +437,45 @@ func NewCase(sp Spec, opt Options) *Case {
 			}
 		}
 	default:
-		panic("c20: unknown scenario " + sp.Scenario)
+		ctx := insideContext(sp.Scenario)
+		if ctx == nil {
+			panic("c20: unknown scenario " + sp.Scenario)
+		}
+		// nothing queued on the Interrupt channel: the template itself executes
+		c.Template = newTemplate(false, 0)
+		t := c.Template
+		taken := 0
+		_ = t.Set("snap", func(call otto.FunctionCall) otto.Value {
+			// one copy per thread, all taken at this point of the template's execution
+			taken++
+			for i := range c.Threads {
+				c.equip(i, t.Copy())
+			}
+			if opt.OnSnap != nil {
+				opt.OnSnap(c)
+			}
+			return otto.UndefinedValue()
+		})
+		if res := ox.Run(t, ctx.Src+InsideAfter); res.Err != nil || res.Panicked || taken != 1 {
+			panic(fmt.Sprintf("c20: copy-inside context %s failed: %v %v (snap called %d times)", ctx.Name, res.Err, res.PanicVal, taken))
+		}
+		for i := range c.Threads {
+			i := i
+			vm := c.VMs[i]
+			c.Threads[i] = func() {
+				c.exec(i, vm, "cont", InsideCont(i))
+				for k, b := range sp.Bodies[i] {
+					c.exec(i, vm, fmt.Sprintf("run%d:%s", k, Bodies[b].Name), Bodies[b].Src)
+				}
+				c.exec(i, vm, "probe", ProbeMini)
+				if opt.BusyTemplate {
+					c.frames(i, vm, "frames while the template runs")
+				}
+			}
+		}
+		if opt.BusyTemplate {
+			c.templateThread = func() { _ = ox.Run(t, TemplateSpin) }
+		}
 	}
 	return c
 }
